@@ -10,6 +10,22 @@ def run (args : List String) : String :=
     match parseBytes? b with
     | some b => "ok " ++ toHex (Bls.writeFr (Bls.mapToFr b))
     | none => "bad-op"
+  | ["sk", algo, seed] =>
+    -- the private key alone (cheap: no scalar multiplication), for long concurrent histories
+    match parseBytes? seed with
+    | none => "bad-op"
+    | some seed =>
+      match algo with
+      | "bls" => match KeyGen.bls seed with
+        | some sk => "ok " ++ toHex (Bls.writeFr sk)
+        | none => "err"
+      | "p256" => match KeyGen.ecdsa Ecdsa.p256 seed with
+        | some d => "ok " ++ toHex (natBE 32 d)
+        | none => "err"
+      | "k256" => match KeyGen.ecdsa Ecdsa.k256 seed with
+        | some d => "ok " ++ toHex (natBE 32 d)
+        | none => "err"
+      | _ => "bad-op"
   | [algo, seed] =>
     match parseBytes? seed with
     | none => "bad-op"
